@@ -98,6 +98,30 @@ func suiteTiming(args []string) {
 		mc.peerClose()
 	}()
 
+	// (a1) the read deadline is per MESSAGE: a peer that starts a request and then lets one byte trickle in every T/4 is
+	// disconnected about T after the server began waiting for that request - it cannot keep the connection for ever
+	func() {
+		ts := newTimingServer(T, T)
+		defer ts.stop()
+		mc := newMemConn("trickle")
+		ts.lis.ch <- acceptResult{conn: mc}
+		start := time.Now()
+		cut := time.Duration(0)
+		for i := 0; i < 40 && i < len(req)-1; i++ { // 40 x T/4 = 10 T, never a complete request
+			mc.peerSend(req[i : i+1])
+			if mc.waitUntil(T/4, func() bool { return mc.localClosed }) {
+				cut = time.Since(start)
+				break
+			}
+		}
+		rep.Evaluations++
+		if cut == 0 || cut > 7*T {
+			viol("deadline", map[string]interface{}{"scenario": "trickling request", "what": "a peer sending one byte of a request every ReadTimeout/4 was not disconnected: the read deadline is re-armed per read instead of per message",
+				"read_timeout_ms": T.Milliseconds(), "disconnected_after_ms": cut.Milliseconds()})
+		}
+		mc.peerClose()
+	}()
+
 	// (a2) hostile peers only cost their own connections: after 80 connections whose TLS handshake fails (plain text instead of
 	// a ClientHello, peers that hang up at once) a well-behaved client is still served promptly
 	func() {
